@@ -24,6 +24,8 @@ def analyse(pid: str, repo: str, tier: str = 'quick'):
             report.enforce_floors()
         return (1 if report.findings else 0), report, ''
     except AnalysisError as e:
+        if report.findings:
+            return 1, report, f'stopped early: {e}'
         return 2, report, str(e)
     except Exception as e:
         return 2, report, f'checker crashed: {type(e).__name__}: {e}'
@@ -47,6 +49,12 @@ def run_property(pid: str, tier: str, repo: str) -> int:
         code = finish(report, mod.EXPLANATION, getattr(mod, 'TRUSTED', []))
         return code
     except AnalysisError as e:
+        if report.findings:
+            # violations established before the analysis broke off stand on their own
+            report.note(f'analysis stopped early: {e}')
+            print(f'  (analysis stopped early after the violations below: {e})')
+            report.rules = {k: dict(v, floor=0) for k, v in report.rules.items()}
+            return finish(report, mod.EXPLANATION, getattr(mod, 'TRUSTED', []))
         print(f'ANALYSIS-ERROR property={pid} {e}')
         return 2
     except Exception as e:  # a crash of the checker is not a verdict
